@@ -121,10 +121,13 @@ pub struct RunOpts {
     /// C15: between two byte comparisons without an update in between the files must not change,
     /// and read-only calls must not extend a file (`set_len` in the io-trace)
     pub ro_check: bool,
+    /// at byte comparison points the Lean reader parses the implementation's files: must succeed,
+    /// give the model's state and satisfy the executable invariant (facet "parse")
+    pub parse_check: bool,
 }
 impl Default for RunOpts {
     fn default() -> Self {
-        RunOpts { model: true, cmp_every: None, cmp_end: true, stop_first: true, op_budget_ms: 20_000, check_inv: false, decoder: false, child: false, sync_check: false, kill_after_sync: false, ro_check: false }
+        RunOpts { model: true, cmp_every: None, cmp_end: true, stop_first: true, op_budget_ms: 20_000, check_inv: false, decoder: false, child: false, sync_check: false, kill_after_sync: false, ro_check: false, parse_check: false }
     }
 }
 
@@ -577,6 +580,18 @@ pub fn run_seq_with_state(seq: &Seq, dir: &Path, driver: &mut Option<Driver>, op
                         cov.cmps += 1;
                         if a != "htx=ok key=ok val=ok" {
                             diffs.push(Diff { idx, facet: "bytes", op: format!("cmp m{} after {}", id, op.text()), got: a, want: "htx=ok key=ok val=ok".into() });
+                        }
+                    }
+                    if opts.parse_check {
+                        for (id, allowed) in model_maps.clone() {
+                            let total: u64 = ["htx", "key", "val"].iter().map(|e| std::fs::metadata(dir.join(format!("m{}.{}", id, e))).map(|m| m.len()).unwrap_or(0)).sum();
+                            if !allowed || total > 400_000 {
+                                continue;
+                            }
+                            let a = ask(driver, format!("m{} parse {}", id, dirs));
+                            if a != "parse=ok same=ok inv=ok" {
+                                diffs.push(Diff { idx, facet: "parse", op: format!("Lean reader on the files of m{} after {}", id, op.text()), got: a, want: "parse=ok same=ok inv=ok".into() });
+                            }
                         }
                     }
                     if opts.ro_check {
